@@ -112,6 +112,12 @@ func H_kq_close() {
 	}
 	verifK1(w, " before Close")
 	verifAssert(verifOpenCount() > 0, "model: something is open")
+	if which != 1 && verifBool("event-pending") {
+		// an event is pending and nobody receives it: the reader is parked in its send
+		verifRaise("/d", unix.NOTE_ATTRIB)
+		verifQuiesce()
+		verifReach("kq-close-reader-parked")
+	}
 	verifAssert(wt.Close() == nil, "Close returns")
 	verifQuiesce()
 	verifAssert(verifOpenCount() == 0, "Close must close every descriptor the Watcher opened for watched paths and directory entries")
